@@ -6,6 +6,7 @@ package main
 import (
 	"fmt"
 	"math"
+	"sort"
 	"sync"
 
 	"gonum.org/v1/gonum/graph"
@@ -46,11 +47,22 @@ func floatGraphs(c *vrt.Ctx, count int) {
 		st := structures[i%len(structures)]
 		g := genRandom(r, n, directed, st, palPos)
 		g.Class = st + "/float"
+		// every second graph uses decimal fractions: sums are not exactly
+		// representable and depend on the order of summation, and there are
+		// many ties up to rounding
+		decimal := i%2 == 1
+		if decimal {
+			g.Class = st + "/decimal"
+		}
 		// replace the integer weights by floats
 		for a := 0; a < g.N; a++ {
 			for b := 0; b < g.N; b++ {
 				if g.has(a, b) && (g.Directed || a < b) {
-					g.setArc(a, b, math.Exp(r.Uniform(-4, 4)))
+					if decimal {
+						g.setArc(a, b, decimals[r.Intn(len(decimals))])
+					} else {
+						g.setArc(a, b, math.Exp(r.Uniform(-4, 4)))
+					}
 				}
 			}
 		}
@@ -234,4 +246,140 @@ func floatGraphs(c *vrt.Ctx, count int) {
 		}
 	})
 	c.Note("float.worst_ratio_to_unit_band", worst.Get())
+}
+
+// decimals: multiples of 0.1 and 1/3; none of their sums is exact in binary
+// and equal real sums differ in the last bits depending on the order.
+var decimals = []float64{0.1, 0.2, 0.3, 0.4, 0.7, 1.0 / 3, 2.0 / 3, 0.1, 0.3, 1.1}
+
+// yenDecimal exercises YenKShortestPaths with decimal weights. The oracle
+// needs no exact arithmetic: every returned path must be a real loopless s-t
+// walk, the paths pairwise distinct as node sequences, their weights
+// non-decreasing and equal, position by position, to the sorted weights of
+// all simple s-t paths within a band; the number of paths is bounded from
+// both sides by the reference counts at (limit -/+ band). Each query is
+// repeated 8 times on the natively (randomly) ordered graph because which of
+// two tied paths is found first depends on map iteration order.
+func yenDecimal(c *vrt.Ctx, count int) {
+	ks := []int{-1, 2, 3, 5, 6, 8, 50}
+	costs := []float64{0.5, 1, 100, math.Inf(1)}
+	vrt.Parallel(count, func(i int) {
+		r := c.RNG("yen-decimal", i)
+		directed := r.Chance(0.7)
+		n := r.Range(4, 7)
+		st := []string{"dense", "sparse", "layered", "ring", "grid"}[i%5]
+		g := genRandom(r, n, directed, st, palPos)
+		g.Class = st + "/decimal"
+		few := r.Intn(3) + 3 // a small palette per graph makes tied sums frequent
+		for a := 0; a < g.N; a++ {
+			for b := 0; b < g.N; b++ {
+				if g.has(a, b) && (g.Directed || a < b) {
+					g.setArc(a, b, decimals[r.Intn(few+2)])
+				}
+			}
+		}
+		if r.Chance(0.3) {
+			assignIDs(r, g, 1)
+		}
+		b := build(r, g, []string{"simple", "simple", "pw-only", "multi-min"}[r.Intn(4)])
+		c.LastCase("C13 Yen decimal " + g.String())
+		band := 16 * float64(g.N) * 0x1p-52 * float64(g.N) * 1.1
+		for q := 0; q < 4; q++ {
+			s, t := r.Intn(g.N), r.Intn(g.N)
+			kk, cost := ks[r.Intn(len(ks))], costs[r.Intn(len(costs))]
+			type sp struct {
+				w float64
+			}
+			var all []float64
+			g.simplePaths(s, t, func(p []int, w float64) bool { all = append(all, w); return len(all) < 20000 })
+			if len(all) >= 20000 || len(all) > 2500 && kk < 0 {
+				continue
+			}
+			sort.Float64s(all)
+			for rep := 0; rep < 8; rep++ {
+				var ps [][]graph.Node
+				u, v := simple.Node(g.IDs[s]), simple.Node(g.IDs[t])
+				q := fmt.Sprintf("YenKShortestPaths(k=%d,cost=%g,%d,%d)", kk, cost, u, v)
+				bad := func(clause string, exp any) {
+					c.Violation("YenKShortestPaths|decimal|"+clause, q+" on "+g.String()+fmt.Sprintf(": observed %v, expected %v", mkObsAll(ps, 0).Paths, exp),
+						g.witness(b.Flavor, q, mkObsAll(ps, 0), exp))
+				}
+				if p := tryFn(func() { ps = path.YenKShortestPaths(b.G, kk, cost, u, v) }); p != nil {
+					bad("panic", p.Msg)
+					break
+				}
+				c.Eval(fmt.Sprintf("YenKShortestPaths|decimal|k=%d|cost=%g|%s", kk, cost, g.Class), len(all) > 1)
+				if len(all) == 0 {
+					if len(ps) != 0 {
+						bad("unreachable", "no paths")
+					}
+					break
+				}
+				limit := all[0] + cost
+				lo, hi := 0, 0
+				for _, w := range all {
+					if w < limit-band {
+						lo++
+					}
+					if w <= limit+band {
+						hi++
+					}
+				}
+				if kk >= 0 {
+					lo, hi = min(lo, kk), min(hi, kk)
+				}
+				seen := map[string]bool{}
+				var ws []float64
+				fail := false
+				for _, pth := range ps {
+					ip := make([]int, len(pth))
+					for j, nd := range pth {
+						ip[j] = g.idx(nd.ID())
+					}
+					sum, ok := 0.0, len(ip) > 0 && ip[0] == s && ip[len(ip)-1] == t
+					if ok {
+						for j := range ip {
+							ok = ok && ip[j] >= 0
+						}
+					}
+					if ok {
+						sum, ok = g.walkWeight(ip)
+					}
+					switch {
+					case !ok:
+						bad("not-a-walk", "real s-t walks")
+					case !isSimple(ip):
+						bad("loop", "loopless paths")
+					case seen[pathKey(ip)]:
+						bad("duplicate-path", "pairwise distinct paths")
+					case len(ws) > 0 && sum < ws[len(ws)-1]-band:
+						bad("wrong-order", "non-decreasing weights")
+					default:
+						seen[pathKey(ip)] = true
+						ws = append(ws, sum)
+						continue
+					}
+					fail = true
+					break
+				}
+				if fail {
+					break
+				}
+				if len(ps) < lo || len(ps) > hi {
+					bad("path-count", fmt.Sprintf("between %d and %d paths", lo, hi))
+					break
+				}
+				for j, w := range ws {
+					if math.Abs(w-all[j]) > band {
+						bad("missing-cheaper-path", fmt.Sprintf("weight %g at position %d", all[j], j))
+						fail = true
+						break
+					}
+				}
+				if fail {
+					break
+				}
+			}
+		}
+	})
 }
